@@ -403,7 +403,7 @@ func (t *State) PlayForMiner(blockid []byte) error {
 	var err error
 	defer func() {
 		if err != nil {
-			t.clearBalanceCache()
+			t.rollbackMemState()
 		}
 	}()
 	for _, tx := range block.Transactions {
@@ -426,9 +426,9 @@ func (t *State) PlayForMiner(blockid []byte) error {
 	// 更新不可逆区块高度
 	curIrreversibleBlockHeight := t.meta.GetIrreversibleBlockHeight()
 	curIrreversibleSlideWindow := t.meta.GetIrreversibleSlideWindow()
-	updateErr := t.meta.UpdateNextIrreversibleBlockHeight(block.Height, curIrreversibleBlockHeight, curIrreversibleSlideWindow, batch)
-	if updateErr != nil {
-		return updateErr
+	err = t.meta.UpdateNextIrreversibleBlockHeight(block.Height, curIrreversibleBlockHeight, curIrreversibleSlideWindow, batch)
+	if err != nil {
+		return err
 	}
 	//更新latestBlockid
 	err = t.updateLatestBlockid(block.Blockid, batch, "failed to save block")
@@ -450,7 +450,7 @@ func (t *State) PlayForMiner(blockid []byte) error {
 // 执行和发送区块
 // PlayAndRepost 执行一个新收到的block，要求block的pre_hash必须是当前vm的latest_block
 // 执行后会更新latestBlockid
-func (t *State) PlayAndRepost(blockid []byte, needRepost bool, isRootTx bool) error {
+func (t *State) PlayAndRepost(blockid []byte, needRepost bool, isRootTx bool) (playErr error) {
 	batch := t.ldb.NewBatch()
 	block, blockErr := t.sctx.Ledger.QueryBlock(blockid)
 	if blockErr != nil {
@@ -458,6 +458,11 @@ func (t *State) PlayAndRepost(blockid []byte, needRepost bool, isRootTx bool) er
 	}
 	t.utxo.Mutex.Lock()
 	defer t.utxo.Mutex.Unlock()
+	defer func() {
+		if playErr != nil {
+			t.rollbackMemState()
+		}
+	}()
 	// 下面开始处理unconfirmed的交易
 	unconfirmToConfirm, undoDone, err := t.processUnconfirmTxs(block, batch, needRepost)
 	if err != nil {
@@ -610,6 +615,7 @@ func (t *State) RollBackUnconfirmedTx() (map[string]bool, []*pb.Transaction, err
 		undoErr := t.undoUnconfirmedTx(unconfirmTx, unconfirmTxMap, unconfirmTxGraph,
 			batch, undoDone, &undoList)
 		if undoErr != nil {
+			t.rollbackMemState()
 			t.log.Warn("fail to undo tx", "undoErr", undoErr, "txid", fmt.Sprintf("%x", txid))
 			return nil, nil, undoErr
 		}
@@ -830,6 +836,15 @@ func (t *State) GetLDB() kvdb.Database {
 	return t.ldb
 }
 
+// rollbackMemState 区块执行或回滚失败时batch不会写盘，丢弃内存里已经随batch提前改掉的状态(各级cache、总资产、meta)
+func (t *State) rollbackMemState() {
+	t.ClearCache()
+	if err := t.utxo.ReloadTotal(); err != nil {
+		t.log.Warn("reload utxo total failed", "err", err)
+	}
+	t.meta.ResetMetaTmp()
+}
+
 func (t *State) ClearCache() {
 	t.utxo.UtxoCache = utxo.NewUtxoCache(t.utxo.CacheSize)
 	t.utxo.PrevFoundKeyCache = cache.NewLRUCache(t.utxo.CacheSize)
@@ -988,6 +1003,11 @@ func (t *State) procUndoBlkForWalk(undoBlocks []*pb.InternalBlock,
 	var showBlkId string
 	var tx *pb.Transaction
 	var showTxId string
+	defer func() {
+		if err != nil {
+			t.rollbackMemState()
+		}
+	}()
 
 	// 依次回滚每个区块
 	for _, undoBlk = range undoBlocks {
@@ -1096,6 +1116,11 @@ func (t *State) procTodoBlkForWalk(todoBlocks []*pb.InternalBlock) (err error) {
 	var showBlkId string
 	var tx *pb.Transaction
 	var showTxId string
+	defer func() {
+		if err != nil {
+			t.rollbackMemState()
+		}
+	}()
 
 	// 依次执行每个块的交易
 	for i := len(todoBlocks) - 1; i >= 0; i-- {
